@@ -278,7 +278,6 @@ def F23.parse (input : Text) : Res F23 := do
         if !(pd.all Char.isDigit) || pd.isEmpty then Res.err else
         let d := digitsVal pd 0
         if d == 0 || d > 99 then Res.err else
-        if fc != "NOT".toList && fc != "NOTICE".toList then Res.err else
         pure (some d, 5)
       else pure (none, 3)
     else pure (none, 3) : Res (Option Nat × Nat))
